@@ -194,6 +194,14 @@ def mutate(sx, cname, slot, shape="full"):
     log = []
     for kind, where in targets:
         values = _menu(sx, "%s.%s.%s" % (cname, kind, where)) if kind in ("pos", "opt", "opt-unknown") else [None]
+        # type-confusable twins of the valid value that sits there: equal in value (==, hash, `in`), different in type
+        orig = base[where] if kind == "pos" else (base[where[0]].get(where[1]) if kind == "opt" else None)
+        if type(orig) is int:
+            values = values + [float(orig)]
+        elif type(orig) is str:
+            values = values + [orig.encode("utf8")]
+        elif type(orig) is bool:
+            values = values + [int(orig)]
         for vi, v in enumerate(values):
             wire = [dict(x) if isinstance(x, dict) else (list(x) if isinstance(x, list) else x) for x in base]
             if kind == "pos":
